@@ -382,3 +382,338 @@ Proof.
   exists (lit "a/b"), [], {| t_sec := 0; t_nsec := 0 |}, {| t_sec := 0; t_nsec := 0 |}, [].
   vm_compute. discriminate.
 Qed.
+
+(* ------------------------------------------------------------------ a whole call against any script *)
+
+Definition wf_script (script : list behaviour) : Prop := forall c p, In (SResp c p) script -> wf_answer c p.
+
+Definition parsed_data_ok (parsed : option envelope) : bool :=
+  match parsed with Some e => env_data_ok e | None => false end.
+
+Lemma data_ok_on_success code parsed : wf_answer code parsed ->
+  d_err (api_do (OResp code parsed)) = None -> d_data_ok (api_do (OResp code parsed)) = parsed_data_ok parsed.
+Proof.
+  intros WF. unfold api_do.
+  destruct (negb (Z.quot code 100 =? 2) && negb (api_error_code code)); [discriminate|].
+  destruct (Z.eqb_spec code 204) as [E4|E4]; simpl.
+  - rewrite (WF E4). reflexivity.
+  - destruct parsed; [reflexivity|discriminate].
+Qed.
+
+Lemma warn_self_ok l :
+  Nat.eqb (List.length l) (List.length l) && forallb (fun p : str * str => str_eqb (fst p) (snd p)) (combine l l) = true.
+Proof. induction l as [|a l IH]; [reflexivity|]. simpl in *. rewrite str_eqb_refl. exact IH. Qed.
+
+Lemma finish_answer_ok c code parsed : wf_answer code parsed ->
+  spec_result_ok c (Some (SResp code parsed)) (finish c (api_do (OResp code parsed))) = true.
+Proof.
+  intros WF.
+  pose proof (api_do_matches_spec_lemma code parsed WF) as M.
+  pose proof (warnings_passed_through_lemma code parsed WF) as W.
+  pose proof (data_ok_on_success code parsed WF) as D.
+  unfold spec_result_ok, finish. fold (parsed_data_ok parsed).
+  destruct (d_err (api_do (OResp code parsed))) as [[|t m]|] eqn:E.
+  - contradiction.
+  - rewrite M. cbn [r_err r_warn]. rewrite W, str_eqb_refl, andb_true_r. apply warn_self_ok.
+  - rewrite M, (D eq_refl), W.
+    destruct (decodes_data c); destruct (parsed_data_ok parsed); cbn [r_err r_warn andb orb negb];
+      rewrite ?andb_true_r; apply warn_self_ok.
+Qed.
+
+Lemma finish_failed_is_error c d : d_err d = Some EOther -> r_err (finish c d) = Some EOther.
+Proof. intros H. unfold finish. rewrite H. reflexivity. Qed.
+
+Lemma http_do_start rq script pre :
+  http_do rq (start_net script pre) =
+  if pre then (OErr None, start_net script true)
+  else match script with
+       | [] => (OErr None, {| n_script := []; n_done := false; n_seen := [rq] |})
+       | SResp c p :: rest => (OResp c p, {| n_script := rest; n_done := false; n_seen := [rq] |})
+       | SDrop :: rest => (OErr None, {| n_script := rest; n_done := false; n_seen := [rq] |})
+       | SCancelHdr :: rest => (OErr None, {| n_script := rest; n_done := true; n_seen := [rq] |})
+       | SCancelBody c :: rest => (OErr (Some c), {| n_script := rest; n_done := true; n_seen := [rq] |})
+       end.
+Proof. unfold http_do, start_net. cbn [n_done n_script n_seen]. destruct pre; [reflexivity|]. destruct script as [|[]]; reflexivity. Qed.
+
+Lemma do_get_fallback_pre path enc script :
+  do_get_fallback path enc (start_net script true) = (api_do (OErr None), start_net script true).
+Proof. reflexivity. Qed.
+
+Lemma do_get_fallback_empty path enc :
+  do_get_fallback path enc (start_net [] false) =
+  (api_do (OErr None), {| n_script := []; n_done := false; n_seen := [post_form path enc] |}).
+Proof. reflexivity. Qed.
+
+(* the requests demanded by the specification are exactly the ones that reach the peer *)
+Lemma run_call_requests_lemma c script pre : label_ok c ->
+  rev (n_seen (snd (run_call [] c (start_net script pre)))) = spec_requests [] c script pre.
+Proof.
+  intros OK. unfold run_call, spec_requests.
+  destruct (params_exact_lemma c) as [K P]. rewrite (path_exact_lemma c OK), P, K.
+  destruct pre.
+  - destruct (spec_kind c); [rewrite http_do_start| rewrite http_do_start | rewrite do_get_fallback_pre]; reflexivity.
+  - destruct (spec_kind c).
+    + rewrite http_do_start. destruct script as [|[]]; reflexivity.
+    + rewrite http_do_start. destruct script as [|[]]; reflexivity.
+    + destruct script as [|b rest]; [rewrite do_get_fallback_empty; reflexivity|].
+      pose proof (fallback_iff_405_501_same_params_lemma (spec_segments [] c) (spec_params c) b rest) as [F _].
+      cbv zeta in F.
+      destruct (do_get_fallback (spec_segments [] c) (spec_params c) (start_net (b :: rest) false)) as [d n'].
+      exact F.
+Qed.
+
+Lemma answer_ok c b : (forall code p, b = SResp code p -> wf_answer code p) ->
+  spec_result_ok c (Some b) (finish c (api_do (answer_of (Some b)))) = true.
+Proof.
+  intros WF. destruct b as [code p| | |code]; try reflexivity.
+  apply finish_answer_ok. apply WF. reflexivity.
+Qed.
+
+(* the result handed to the caller is acceptable for the deciding answer: in particular never a success unless
+   that answer is 2xx without a declared error and with decodable data *)
+Lemma run_call_result_ok_lemma prefix c script pre : wf_script script ->
+  spec_result_ok c (spec_final c script pre) (fst (run_call prefix c (start_net script pre))) = true.
+Proof.
+  intros WF. unfold run_call, spec_final.
+  destruct (params_exact_lemma c) as [K _]. rewrite K.
+  set (segs := model_segments prefix c). set (enc := model_params c).
+  destruct pre.
+  - destruct (spec_kind c); [rewrite http_do_start| rewrite http_do_start | rewrite do_get_fallback_pre]; reflexivity.
+  - destruct (spec_kind c).
+    + rewrite http_do_start. destruct script as [|b rest]; [reflexivity|].
+      assert (forall code p, b = SResp code p -> wf_answer code p) as WB by (intros code p E; apply WF; left; exact E).
+      pose proof (answer_ok c b WB) as A. destruct b; exact A.
+    + rewrite http_do_start. destruct script as [|b rest]; [reflexivity|].
+      assert (forall code p, b = SResp code p -> wf_answer code p) as WB by (intros code p E; apply WF; left; exact E).
+      pose proof (answer_ok c b WB) as A. destruct b; exact A.
+    + destruct script as [|b rest]; [rewrite do_get_fallback_empty; reflexivity|].
+      pose proof (fallback_iff_405_501_same_params_lemma segs enc b rest) as [_ F].
+      cbv zeta in F.
+      destruct (do_get_fallback segs enc (start_net (b :: rest) false)) as [d n'].
+      cbn [fst] in *.
+      destruct b as [code p| | |code].
+      * destruct (is_fallback_code code).
+        -- subst d. destruct rest as [|b2 rest2]; [reflexivity|].
+           cbn [hd_error].
+           apply answer_ok. intros code2 p2 E. apply WF. right. left. exact E.
+        -- subst d. apply finish_answer_ok. apply WF. left. reflexivity.
+      * destruct F as [F _]. cbn [spec_result_ok]. rewrite (finish_failed_is_error c d F). reflexivity.
+      * destruct F as [F _]. cbn [spec_result_ok]. rewrite (finish_failed_is_error c d F). reflexivity.
+      * destruct F as [F _]. cbn [spec_result_ok]. rewrite (finish_failed_is_error c d F). reflexivity.
+Qed.
+
+(* read off: a nil error at the end of a call *)
+Lemma call_nil_error_only_if_lemma prefix c script pre : wf_script script ->
+  r_err (fst (run_call prefix c (start_net script pre))) = None ->
+  exists code parsed, spec_final c script pre = Some (SResp code parsed) /\
+    200 <= code <= 299 /\ declared_error parsed = None /\ (decodes_data c = true -> code <> 204 /\ parsed_data_ok parsed = true).
+Proof.
+  intros WF H. pose proof (run_call_result_ok_lemma prefix c script pre WF) as R.
+  assert (forall code parsed, In (SResp code parsed) script -> spec_final c script pre = Some (SResp code parsed) -> wf_answer code parsed) as WF' by (intros; apply WF; assumption).
+  destruct (spec_final c script pre) as [[code parsed| | |code]|] eqn:SF; unfold spec_result_ok in R; rewrite H in R; try discriminate.
+  exists code, parsed. split; [reflexivity|].
+  assert (wf_answer code parsed) as WA.
+  { unfold spec_final in SF. destruct pre; [discriminate|].
+    destruct (spec_kind c); destruct script as [|b rest]; try discriminate.
+    - inversion SF. subst b. apply WF. left. reflexivity.
+    - inversion SF. subst b. apply WF. left. reflexivity.
+    - destruct b as [c1 p1| | |c1]; try (inversion SF; fail).
+      destruct (is_fallback_code c1).
+      + destruct rest as [|b2 rest2]; [discriminate|]. cbn [hd_error] in SF. inversion SF. subst b2. apply WF. right. left. reflexivity.
+      + inversion SF. subst c1 p1. apply WF. left. reflexivity. }
+  destruct (spec_expect code parsed) eqn:SE; [discriminate|].
+  apply andb_true_iff in R. destruct R as [_ R].
+  unfold spec_expect in SE. destruct (is_2xx code) eqn:E2.
+  - split; [apply is_2xx_iff; assumption|].
+    destruct (Z.eqb_spec code 204) as [E4|E4].
+    + rewrite (WA E4) in *. split; [reflexivity|]. intros DD. rewrite DD in R. discriminate.
+    + destruct parsed as [e|]; [|discriminate]. split; [assumption|]. intros DD. rewrite DD in R. split; [assumption|exact R].
+  - destruct (api_error_code code); [destruct (declared_error parsed); discriminate|].
+    destruct ((400 <=? code) && (code <=? 499)); [discriminate|].
+    destruct ((500 <=? code) && (code <=? 599)); discriminate.
+Qed.
+
+(* ------------------------------------------------------------------ formatTime: millisecond precision *)
+(* float64(sec) is exact below 2^53, nsec/1e9 is within half an ulp of [0,1), and the sum is rounded once more at
+   magnitude < 2^43: total error <= 2^-11 + 2^-54 s < 1 ms.  The decimal text (FormatFloat 'f' -1 / ParseFloat round
+   trip) is not modelled; the harness parses the text back and the comparison is on bits. *)
+From Coq Require Import Reals Lra.
+From Flocq Require Import Core.Core IEEE754.BinarySingleNaN.
+Open Scope Z_scope.
+
+Local Notation fexp64 := (SpecFloat.fexp 53 1024).
+Local Notation rnd64 := (round radix2 fexp64 (round_mode mode_NE)).
+
+Lemma fexp64_FLT : fexp64 = FLT_exp (-1074) 53.
+Proof. reflexivity. Qed.
+
+Global Instance valid_fexp64 : Valid_exp fexp64.
+Proof. rewrite fexp64_FLT. apply FLT_exp_valid. exact Hprec_gt0_64. Qed.
+
+Lemma generic_int z : Z.abs z < 2 ^ 53 -> generic_format radix2 fexp64 (IZR z).
+Proof.
+  intros H. rewrite fexp64_FLT. apply generic_format_FLT.
+  apply (FLT_spec radix2 (-1074) 53 (IZR z) (Float radix2 z 0)).
+  - unfold F2R. simpl. ring.
+  - simpl. exact H.
+  - simpl. lia.
+Qed.
+
+Lemma of_Z_exact z : Z.abs z < 2 ^ 53 -> B2R (of_Z z) = IZR z /\ is_finite (of_Z z) = true.
+Proof.
+  intros H. unfold of_Z.
+  pose proof (binary_normalize_correct 53 1024 Hprec_gt0_64 Hprec_emax64 mode_NE z 0 false) as C.
+  cbv zeta in C.
+  assert (F2R (Float radix2 z 0) = IZR z) as E by (unfold F2R; simpl; ring).
+  rewrite E in C.
+  rewrite (round_generic radix2 fexp64 _ (IZR z) (generic_int z H)) in C.
+  rewrite Rlt_bool_true in C.
+  - destruct C as (C1 & C2 & _). split; assumption.
+  - rewrite <- abs_IZR.
+    apply Rlt_le_trans with (bpow radix2 53); [|apply bpow_le; lia].
+    rewrite <- (IZR_Zpower radix2 53) by lia. apply IZR_lt. exact H.
+Qed.
+
+Lemma ulp_bound e x : -1074 <= e - 53 -> (Rabs x < bpow radix2 e)%R -> (ulp radix2 fexp64 x <= bpow radix2 (e - 53))%R.
+Proof.
+  intros He Hx. destruct (Req_dec x 0) as [Z0|NZ].
+  - subst x. rewrite fexp64_FLT. rewrite ulp_FLT_0 by exact Hprec_gt0_64. apply bpow_le. lia.
+  - rewrite ulp_neq_0 by assumption. apply bpow_le. unfold cexp. rewrite fexp64_FLT. unfold FLT_exp.
+    pose proof (mag_le_bpow radix2 x e NZ Hx). lia.
+Qed.
+
+Lemma round_err e x : -1074 <= e - 53 -> (Rabs x < bpow radix2 e)%R ->
+  (Rabs (rnd64 x - x) <= / 2 * bpow radix2 (e - 53))%R.
+Proof.
+  intros He Hx.
+  apply Rle_trans with (/ 2 * ulp radix2 fexp64 x)%R.
+  - apply error_le_half_ulp. exact valid_fexp64.
+  - apply Rmult_le_compat_l; [lra|]. apply ulp_bound; assumption.
+Qed.
+
+Lemma round_abs_le e x : -1074 <= e - 53 -> (Rabs x <= bpow radix2 e)%R -> (Rabs (rnd64 x) <= bpow radix2 e)%R.
+Proof.
+  intros He Hx. apply abs_round_le_generic; try typeclasses eauto; [|exact Hx].
+  apply generic_format_bpow. rewrite fexp64_FLT. unfold FLT_exp. lia.
+Qed.
+
+Definition e9 : Z := 1000000000.
+
+Lemma f1e9_exact : B2R f1e9 = IZR e9 /\ is_finite f1e9 = true.
+Proof. apply of_Z_exact. vm_compute. reflexivity. Qed.
+
+(* the quotient nsec/1e9 *)
+Lemma frac_correct nsec : 0 <= nsec < e9 ->
+  let q := fdiv (of_Z nsec) f1e9 in
+  is_finite q = true /\ (0 <= B2R q <= 1)%R /\ (Rabs (B2R q - IZR nsec / IZR e9) <= / 2 * bpow radix2 (-53))%R.
+Proof.
+  intros Hn q.
+  destruct (of_Z_exact nsec) as [Nx Nf]; [unfold e9 in Hn; lia|].
+  destruct f1e9_exact as [Dx Df].
+  pose proof (Bdiv_correct 53 1024 Hprec_gt0_64 Hprec_emax64 mode_NE (of_Z nsec) f1e9) as C.
+  rewrite Dx, Nx in C.
+  assert (IZR e9 <> 0)%R as NZ by (apply not_0_IZR; discriminate).
+  specialize (C NZ).
+  set (v := (IZR nsec / IZR e9)%R) in *.
+  assert (0 <= v < 1)%R as Hv.
+  { unfold v. assert (0 < IZR e9)%R by (apply IZR_lt; reflexivity).
+    split.
+    - apply Rmult_le_pos; [apply IZR_le; lia|]. apply Rlt_le, Rinv_0_lt_compat. assumption.
+    - apply Rmult_lt_reg_r with (IZR e9); [assumption|]. unfold Rdiv. rewrite Rmult_assoc, Rinv_l, Rmult_1_r, Rmult_1_l by assumption.
+      apply IZR_lt. lia. }
+  assert (0 <= rnd64 v <= 1)%R as Hr.
+  { split.
+    - rewrite <- (round_0 radix2 fexp64 (round_mode mode_NE)). apply round_le; try typeclasses eauto. lra.
+    - rewrite <- (round_generic radix2 fexp64 (round_mode mode_NE) 1%R).
+      + apply round_le; try typeclasses eauto. lra.
+      + apply (generic_int 1). reflexivity. }
+  rewrite Rlt_bool_true in C.
+  - destruct C as (C1 & C2 & _). subst q. unfold fdiv. split; [rewrite C2; exact Nf|]. rewrite C1. split; [exact Hr|].
+    replace (-53) with (0 - 53) by lia. apply round_err; [lia|]. simpl. rewrite Rabs_pos_eq; lra.
+  - rewrite Rabs_pos_eq by lra. apply Rle_lt_trans with 1%R; [lra|]. apply (bpow_lt radix2 0 1024). lia.
+Qed.
+
+Lemma format_time_real sec nsec : - 2 ^ 43 < sec < 2 ^ 43 - 1 -> 0 <= nsec < e9 ->
+  let x := format_time {| t_sec := sec; t_nsec := nsec |} in
+  is_finite x = true /\
+  (Rabs (B2R x - (IZR sec + IZR nsec / IZR e9)) <= / 2 * bpow radix2 (-10) + / 2 * bpow radix2 (-53))%R.
+Proof.
+  intros Hs Hn x. subst x. unfold format_time. cbn [t_sec t_nsec].
+  destruct (of_Z_exact sec) as [Sx Sf]; [lia|].
+  destruct (frac_correct nsec Hn) as (Qf & Qr & Qe). cbv zeta in Qf, Qr, Qe.
+  set (q := fdiv (of_Z nsec) f1e9) in *.
+  pose proof (Bplus_correct 53 1024 Hprec_gt0_64 Hprec_emax64 mode_NE (of_Z sec) q Sf Qf) as C.
+  rewrite Sx in C.
+  set (v := (IZR sec + B2R q)%R) in *.
+  assert (Rabs v < bpow radix2 43)%R as Hv.
+  { rewrite <- (IZR_Zpower radix2 43) by lia. change (radix2 ^ 43) with (2 ^ 43).
+    assert (IZR (- 2 ^ 43 + 1) <= IZR sec)%R by (apply IZR_le; lia).
+    assert (IZR sec <= IZR (2 ^ 43 - 2))%R by (apply IZR_le; lia).
+    rewrite plus_IZR, opp_IZR in H. rewrite minus_IZR in H0.
+    apply Rabs_def1; unfold v; lra. }
+  rewrite Rlt_bool_true in C.
+  - destruct C as (C1 & C2 & _). unfold fadd. split; [exact C2|]. rewrite C1.
+    replace (rnd64 v - (IZR sec + IZR nsec / IZR e9))%R with ((rnd64 v - v) + (B2R q - IZR nsec / IZR e9))%R by (unfold v; ring).
+    eapply Rle_trans; [apply Rabs_triang|]. apply Rplus_le_compat; [|exact Qe].
+    replace (-10) with (43 - 53) by lia. apply round_err; [lia|exact Hv].
+  - apply Rle_lt_trans with (bpow radix2 43); [|apply bpow_lt; lia]. apply round_abs_le; [lia|]. lra.
+Qed.
+
+Lemma bpow_neg_pos (e : positive) : bpow radix2 (Z.neg e) = (/ IZR (2 ^ Z.pos e))%R.
+Proof. change (Z.neg e) with (- Z.pos e). rewrite bpow_opp, <- IZR_Zpower by lia. reflexivity. Qed.
+
+Lemma eps_small : (/ 2 * bpow radix2 (-10) + / 2 * bpow radix2 (-53) < / 1000)%R.
+Proof.
+  assert (bpow radix2 (-53) <= bpow radix2 (-20))%R by (apply bpow_le; lia).
+  rewrite (bpow_neg_pos 20) in H. rewrite (bpow_neg_pos 10).
+  change (2 ^ 10) with 1024 in *. change (2 ^ 20) with 1048576 in *.
+  assert (0 < bpow radix2 (-53))%R by apply bpow_gt_0.
+  lra.
+Qed.
+
+(* the boolean test on the bits decides the real inequality *)
+Lemma within_ms_complete x sec nsec : is_finite x = true ->
+  (Rabs (B2R x - (IZR sec + IZR nsec / IZR e9)) < / 1000)%R -> within_ms x sec nsec = true.
+Proof.
+  intros F H.
+  assert (0 < IZR e9)%R as P9 by (apply IZR_lt; reflexivity).
+  set (t := sec * 1000000000 + nsec).
+  assert (IZR sec + IZR nsec / IZR e9 = IZR t / IZR e9)%R as ET.
+  { unfold t. rewrite plus_IZR, mult_IZR. fold e9. field. lra. }
+  rewrite ET in H. clear ET.
+  (* a uniform statement: x = a / p with p > 0 *)
+  assert (forall a p : Z, 0 < p -> (B2R x = IZR a / IZR p)%R -> Z.abs (a * 1000000000 - t * p) * 1000 <? 1000000000 * p = true) as K.
+  { intros a p Pp E. apply Z.ltb_lt. apply lt_IZR.
+    assert (0 < IZR p)%R as Pr by (apply IZR_lt; assumption).
+    rewrite E in H.
+    rewrite !mult_IZR, abs_IZR, minus_IZR, !mult_IZR. fold e9.
+    replace (IZR a * IZR e9 - IZR t * IZR p)%R with ((IZR a / IZR p - IZR t / IZR e9) * (IZR p * IZR e9))%R by (field; lra).
+    rewrite Rabs_mult. rewrite (Rabs_pos_eq (IZR p * IZR e9)) by (apply Rlt_le, Rmult_lt_0_compat; assumption).
+    assert (0 < IZR p * IZR e9)%R by (apply Rmult_lt_0_compat; assumption).
+    replace (IZR e9) with 1000000000%R in * by reflexivity.
+    nra. }
+  destruct x as [sg| | |sg m e Hb]; try discriminate.
+  - (* zero *)
+    unfold within_ms. fold t. specialize (K 0 1 ltac:(lia)).
+    replace (0 * 1000000000 - t * 1) with (- t) in K by lia. rewrite Z.abs_opp in K.
+    replace (1000000000 * 1) with 1000000000 in K by lia. apply K. simpl. lra.
+  - unfold within_ms. fold t.
+    set (zm := if sg then Z.neg m else Z.pos m).
+    assert (B2R (B754_finite sg m e Hb) = IZR zm * bpow radix2 e)%R as EB.
+    { unfold B2R, F2R. simpl. unfold zm. destruct sg; reflexivity. }
+    destruct (Z.leb_spec 0 e) as [Pe|Ne].
+    + specialize (K (zm * 2 ^ e) 1 ltac:(lia)).
+      replace (t * 1) with t in K by lia. replace (1000000000 * 1) with 1000000000 in K by lia.
+      apply K. rewrite EB. rewrite mult_IZR. rewrite <- (IZR_Zpower radix2 e) by lia. change (radix2 ^ e) with (2 ^ e). field.
+    + assert (0 < 2 ^ (- e)) as Pp by (apply Z.pow_pos_nonneg; lia).
+      specialize (K zm (2 ^ (- e)) Pp). apply K. rewrite EB.
+      replace e with (- (- e)) at 1 by lia. rewrite bpow_opp. rewrite <- (IZR_Zpower radix2 (- e)) by lia.
+      change (radix2 ^ (- e)) with (2 ^ (- e)). reflexivity.
+Qed.
+
+Lemma format_time_ms_precision_lemma sec nsec : - 2 ^ 43 < sec < 2 ^ 43 - 1 -> 0 <= nsec < 1000000000 ->
+  within_ms (format_time {| t_sec := sec; t_nsec := nsec |}) sec nsec = true.
+Proof.
+  intros Hs Hn. destruct (format_time_real sec nsec Hs Hn) as [F E]. cbv zeta in F, E.
+  apply within_ms_complete; [exact F|]. eapply Rle_lt_trans; [exact E|exact eps_small].
+Qed.
